@@ -55,6 +55,7 @@ type c17cfg struct {
 	stderr    bool // the threads write to the wrapper handed out for stderr instead of the one for stdout
 	pipe      bool // every command has a second writer (the other end of a pipeline, a background job) that writes one whole line to the command's stderr wrapper while the first writes to its stdout wrapper
 	small     bool // one text, one chunking (used where the schedule space, not the input space, is the subject)
+	late      bool // with pipe: the second writer is only joined after the command's close function ran (a background job that outlives its command); used for the race oracle only
 }
 
 func (c c17cfg) name() string {
@@ -64,6 +65,9 @@ func (c c17cfg) name() string {
 	}
 	if c.pipe {
 		n += "/two-writers-per-command"
+	}
+	if c.late {
+		n += "/second-outlives-the-command"
 	}
 	return n
 }
@@ -160,7 +164,9 @@ func c17Direct(c c17cfg) *Unit {
 				for _, ch := range picks[i].chunks {
 					w.Write([]byte(ch))
 				}
-				side.Wait()
+				if !c.late {
+					side.Wait()
+				}
 				var err error
 				if kinds[i] == 2 {
 					err = fmt.Errorf("task: command was cancelled: %w", context.Canceled)
@@ -168,6 +174,9 @@ func c17Direct(c c17cfg) *Unit {
 					err = errors.New("failed")
 				}
 				closer(err)
+				if c.late {
+					side.Wait()
+				}
 				return nil
 			})
 		}
@@ -430,7 +439,7 @@ func c17Units(tier string) []*Unit {
 	if tier == "thorough" {
 		us = append(us, c17Direct(c17cfg{mode: "prefixed", threads: 3}))
 	}
-	us = append(us, c17Exec("group", false, tier), c17Exec("group", true, tier), c17Exec("prefixed", false, tier), c17ErrorOnlyIgnored(tier), c17LargeBlocks(), c17ExternalProcessUnit(), c17IncludedOutputUnit())
+	us = append(us, c17Exec("group", false, tier), c17Exec("group", true, tier), c17Exec("prefixed", false, tier), c17ErrorOnlyIgnored(tier), c17LargeBlocks(), c17LongLinePrefixed(), c17ExternalProcessUnit(), c17IncludedOutputUnit())
 	return us
 }
 
@@ -458,6 +467,32 @@ func c17LargeBlocks() *Unit {
 				kind = "interleaved_blocks"
 			}
 			out = append(out, vlab.V("C17", "group_block", "group:large:"+kind, fmt.Sprintf("the stream (%d bytes, starts %q) is not the two whole 9 001-byte blocks in either order", len(stream), firstN(stream, 40))))
+		}
+		return out
+	}}
+}
+
+// one line of 70 000 bytes written in two pieces (larger than any line buffer one might pick):
+// under output prefixed it is still one prefixed line
+func c17LongLinePrefixed() *Unit {
+	pg := &Prog{Tasks: []*T{
+		{Name: "root", Deps: []Ref{D("a"), D("b")}},
+		{Name: "a", Prefix: "A", RawLines: []string{"cmds:", "  - printf 'a%070000d' 1; printf 'tail\\n'"}},
+		{Name: "b", Prefix: "B", RawLines: []string{"cmds:", "  - printf 'b1\\n'"}},
+	}}
+	sc := scen("executor/prefixed/line-of-70000-bytes-in-two-writes", pg, vlab.Options{Output: "prefixed"}, "root")
+	sc.Raw = true
+	wantA := "[A] a" + fmt.Sprintf("%070000d", 1) + "tail\n"
+	return &Unit{Name: sc.Name, Sc: sc, Bound: 1, Prune: true, Weight: 2, Check: func(x *vlab.Exec) []vlab.Violation {
+		out := generic("C17", x)
+		stream := ""
+		for _, e := range x.Trace {
+			if e.K == 'W' {
+				stream += e.Line
+			}
+		}
+		if stream != wantA+"[B] b1\n" && stream != "[B] b1\n"+wantA {
+			out = append(out, vlab.V("C17", "prefixed_line", "long_line:torn", fmt.Sprintf("the stream (%d bytes, %d line breaks, starts %q) is not the one long prefixed line of A and the line of B", len(stream), strings.Count(stream, "\n"), firstN(stream, 30))))
 		}
 		return out
 	}}
